@@ -56,6 +56,9 @@ class NonlinearConstraintsConfig(ImmutableBaseModel):
 
     @model_validator(mode="after")
     def _broadcast_and_check(self, info: ValidationInfo) -> Self:
+        if getattr(self, "_is_immutable", False):
+            # Do not modify an object that was validated before:
+            self = self.model_copy()  # noqa: PLW0642
         lower_bounds, upper_bounds = broadcast_arrays(
             self.lower_bounds, self.upper_bounds
         )
